@@ -24,6 +24,66 @@ import (
 type c03Case struct {
 	C cpuCase `json:"instr"`
 	X uint8   `json:"x"`
+	// Pre, when not empty, is a conditional jump / call / return executed immediately before the measured
+	// instruction (placed just below it, no other instruction in between) that leaves every register as it is:
+	// JR cc,+0 and JP cc,next (taken or not), CALL cc / RET cc with a condition that is false for the case's flags.
+	Pre []byte `json:"pre,omitempty"`
+}
+
+func c03CondFalse(cc, f uint8) bool {
+	switch cc & 3 {
+	case 0:
+		return f&0x80 != 0 // NZ
+	case 1:
+		return f&0x80 == 0 // Z
+	case 2:
+		return f&0x10 != 0 // NC
+	}
+	return f&0x10 == 0 // C
+}
+
+func c03PreValid(cc *c03Case) bool {
+	p, pc := cc.Pre, cc.C.R.PC
+	switch {
+	case len(p) == 0:
+		return true
+	case pc < 0xc004:
+		return false
+	case len(p) == 2 && p[0]&0xe7 == 0x20 && p[1] == 0:
+		return true
+	case len(p) == 3 && p[0]&0xe7 == 0xc2 && p[1] == uint8(pc) && p[2] == uint8(pc>>8):
+		return true
+	case len(p) == 3 && p[0]&0xe7 == 0xc4:
+		return c03CondFalse(p[0]>>3, cc.C.R.F)
+	case len(p) == 1 && p[0]&0xe7 == 0xc0:
+		return c03CondFalse(p[0]>>3, cc.C.R.F)
+	}
+	return false
+}
+
+var c03PreDesync int64
+
+// c03Prep: the CPU at the measured instruction with the case's registers - directly (after the rig's flush NOP),
+// or by way of the predecessor. ok=false: the predecessor itself misbehaved (C01's subject), skip the case.
+func c03Prep(rg *cpuRig, cc *c03Case) (ok bool, err error) {
+	if len(cc.Pre) == 0 {
+		return true, rg.prep(cc.C.R, false)
+	}
+	m := rg.m
+	start := cc.C.R
+	start.PC -= uint16(len(cc.Pre))
+	for i, b := range cc.Pre {
+		m.Mp.Write(start.PC+uint16(i), b)
+	}
+	if e := rg.prep(start, false); e != nil {
+		return false, e
+	}
+	rg.exec(10, nil, nil)
+	if !m.CPU.VerifAtBoundary() || cpuFromHook(m.CPU.VerifGet()) != cc.C.R {
+		c03PreDesync++
+		return false, nil
+	}
+	return true, nil
 }
 
 func c03Safe(a uint16) bool {
@@ -36,10 +96,16 @@ func c03Run(rg *cpuRig, cc *c03Case) (nReads, nWrites int, sig string, err error
 	m := rg.m
 	c := &cc.C
 	name := cpuOpName(c.Code)
+	if !c03PreValid(cc) {
+		return 0, 0, "invalid-case", fmt.Errorf("predecessor % x is not one of the register-preserving forms for this case", cc.Pre)
+	}
 	rg.load(c)
 	dry := refcpu.Step(c.R, m.Mp.Read, false)
 	if dry.Undefined || dry.Halt || dry.Stop {
 		return 0, 0, "", nil
+	}
+	if len(cc.Pre) > 0 {
+		name += fmt.Sprintf(" straight after % x", cc.Pre)
 	}
 	var reads []refcpu.Access
 	for _, a := range dry.Acc {
@@ -64,8 +130,10 @@ func c03Run(rg *cpuRig, cc *c03Case) (nReads, nWrites int, sig string, err error
 				}
 				return m.Mp.Read(a)
 			}, false)
-			if e := rg.prep(c.R, false); e != nil {
+			if ok, e := c03Prep(rg, cc); e != nil {
 				return 0, 0, "rig-boundary", e
+			} else if !ok {
+				return 0, 0, "", nil
 			}
 			obs := rg.exec(10, func(k int) {
 				v := y
@@ -113,8 +181,10 @@ func c03Run(rg *cpuRig, cc *c03Case) (nReads, nWrites int, sig string, err error
 		}
 		if usable {
 			exp = refcpu.Step(c.R, m.Mp.Read, false)
-			if e := rg.prep(c.R, false); e != nil {
+			if ok, e := c03Prep(rg, cc); e != nil {
 				return 0, 0, "rig-boundary", e
+			} else if !ok {
+				return 0, 0, "", nil
 			}
 			seen := map[uint16]int{}
 			rg.exec(10, nil, func(k int) {
@@ -194,7 +264,28 @@ func c03Gen(rt *rapid.T, ops []int) c03Case {
 		a := uint16(rapid.IntRange(0xd000, 0xdff0).Draw(rt, "nn"))
 		code[1], code[2] = uint8(a), uint8(a>>8)
 	}
-	return c03Case{C: cpuCase{R: r, Code: code}, X: rapid.Byte().Draw(rt, "x")}
+	cas := c03Case{C: cpuCase{R: r, Code: code}, X: rapid.Byte().Draw(rt, "x")}
+	if r.PC >= 0xc004 && rapid.IntRange(0, 2).Draw(rt, "with-predecessor") == 0 {
+		cc := uint8(rapid.IntRange(0, 3).Draw(rt, "pre-cc"))
+		falseCC := uint8(0) // a condition that does not hold for these flags
+		for k := uint8(0); k < 4; k++ {
+			if c03CondFalse((cc+k)&3, r.F) {
+				falseCC = (cc + k) & 3
+				break
+			}
+		}
+		switch rapid.IntRange(0, 3).Draw(rt, "pre-kind") {
+		case 0:
+			cas.Pre = []byte{0x20 | cc<<3, 0x00}
+		case 1:
+			cas.Pre = []byte{0xc2 | cc<<3, uint8(r.PC), uint8(r.PC >> 8)}
+		case 2:
+			cas.Pre = []byte{0xc4 | falseCC<<3, 0x00, 0xc0}
+		default:
+			cas.Pre = []byte{0xc0 | falseCC<<3}
+		}
+	}
+	return cas
 }
 
 // c03MemOps lists the opcodes (0-255 base, 256-511 CB) for which the reference predicts a data access for some flag state.
@@ -231,7 +322,7 @@ func c03MemOps() []int {
 func TestC03(t *testing.T) {
 	c := vf.New(t, "C03", "every opcode for which the reference predicts a data access (through HL, BC, DE, nn, FF00+n, FF00+C or SP; taken conditional CALL/RET, RST, all CB (HL) forms) x rapid-drawn plain-memory operand addresses, registers and marker byte X. "+
 		"Reads: one run per candidate machine cycle j with the operand bytes holding X only during cycle j (one-hot), compared with the reference reading X exactly in the documented cycle; writes: target bytes snapshotted after every cycle. "+
-		"Non-trivial: the case performed at least one data access; distinct = (opcode, number of reads, number of writes, taken?) classes plus case hash.")
+		"In a third of the cases the measured instruction is executed straight after a conditional jump, call or return that leaves the registers alone (no instruction in between). Non-trivial: the case performed at least one data access; distinct = (opcode, number of reads, number of writes, taken?) classes plus case hash.")
 	defer c.Flush()
 	c.RunReplays()
 	if c.Env.Shard == 0 {
@@ -266,6 +357,9 @@ func TestC03(t *testing.T) {
 		}
 		name := cpuOpName(cas.C.Code)
 		class := fmt.Sprintf("reads%d-writes%d", nr, nw)
+		if len(cas.Pre) > 0 {
+			c.Class("straight-after-a-conditional-jump-call-or-return", 1)
+		}
 		c.Case(class, vf.Hash(cas), nr+nw > 0, func() interface{} { return cas })
 		if nr+nw > 0 && !covered[name] {
 			covered[name] = true
